@@ -1,12 +1,189 @@
 /-
-  Driver/OpsDiff.lean — driver ops of the "Diff" unit (stub: serves nothing yet).
-  Interface: return `none` for requests this unit does not serve, `some reply` otherwise.
+  Driver/OpsDiff.lean — driver ops of the Diff unit (property C08): `diff_dr`, `diff_trace`.
+
+  TYPE token  <family>:<group>:k<K>:<mode>:i<subset|all>:c<const mask>   (see harness/diff.cpp).
+  The argument tuple is `X = Array (Array α)`: one flat word array per argument, encoded as in
+  Driver/OpsManif.lean (`MT.encode`).  The callable families are modelled with the group models of
+  SmoothModel (the same functions C01–C04 are about); `SmoothModel/Diff.lean` runs the schedule.
+    diff_dr    → fval ++ J (row-major) [++ H (row-major)] ++ arguments after the call
+    diff_trace → the argument tuple at every evaluation of f, in order
 -/
 import SmoothModel
+import SmoothModel.Manifold
+import SmoothModel.Diff
 import Driver.Ops
+import Driver.OpsManif
+
+open Scalar Lin Manif Diff
 
 namespace Drv
+variable {α : Type} [Scalar α]
 
-def runDiff (_op _grp _prec : String) (_args : Array String) : Option String := none
+abbrev DX (α : Type) := Array (Array α)
+
+def dxGet (x : DX α) (i : Nat) : Array α := x.getD i #[]
+
+/-- argument `i` of kind `t` as a slot of the tuple -/
+def mkSlot (t : MT) (i : Nat) : Slot α (DX α) where
+  dof := fun x =>
+    match t.decode (dxGet x i) 0 with
+    | some (v, _) => (t.man (α := α)).dof v
+    | none => 0
+  rplus := fun x a =>
+    match t.decode (dxGet x i) 0 with
+    | some (v, _) => x.setIfInBounds i (t.encode ((t.man (α := α)).rplus v a))
+    | none => x
+  coord :=
+    match t with
+    | .grp (.tn _) => some (fun x j => (dxGet x i).getD j (nat 0))      -- Eigen::Vector<N>
+    | .vecx => some (fun x j => (dxGet x i).getD (j + 1) (nat 0))        -- Eigen::VectorX (word 0 = size)
+    | _ => none
+
+/-- the result type: a Lie group (rminus = log(b⁻¹ ∘ a)) or a vector / scalar ((−b) + a) -/
+inductive OutKind where
+  | group (d : GDesc)
+  | vec
+
+def rmOf (k : OutKind) (a b : Array α) : List α :=
+  match k with
+  | .group d =>
+    let G : LieModel α := GDesc.model d
+    listOfVec (G.rminus (memoV (ofArray G.rep a)) (memoV (ofArray G.rep b)))
+  | .vec => List.zipWith (fun bi ai => (-bi) + ai) b.toList a.toList
+
+structure Family (α : Type) where
+  kinds : List MT
+  out : OutKind
+  f : DX α → Array α
+
+def half (α : Type) [Scalar α] : α := (nat 1 : α) / (nat 2 : α)
+
+/-- polynomial map of harness/diff.cpp (`Poly`), same operation order -/
+def polyEval (m : Nat) (p : Array α) (x : DX α) : Array α :=
+  let t := dxGet x 0
+  let u := dxGet x 1
+  let w := (dxGet x 2).extract 1 (dxGet x 2).size
+  let z := t ++ u ++ w
+  let N := z.size
+  let A (i j : Nat) : α := p.getD (i * N + j) (nat 0)
+  let q (i : Nat) : α := p.getD (m * N + i) (nat 0)
+  let c (i : Nat) : α := p.getD (m * N + m + i) (nat 0)
+  let zz (k : Nat) : α := z.getD (k % N) (nat 0)
+  Array.ofFn (n := m) (fun i =>
+    let s := (List.range N).foldl (fun s j => s + A i.val j * zz j) (nat 0 : α)
+    s / nat 10 + q i.val * zz i.val * zz (i.val + 1) / nat 100
+      + c i.val * zz (i.val + 2) * zz (i.val + 2) * zz (i.val + 2) / nat 1000)
+
+def sumLog (G : LieModel α) (a : Array α) : Array α :=
+  let n := natOfScalar (a.getD 0 (nat 0))
+  let s := (List.range n).foldl
+    (fun (s : Vec α G.dof) i => memoV (vadd s (G.log (memoV (ofArray G.rep a (1 + i * G.rep)))))) (vzero G.dof)
+  toArray s
+
+def mkFamily (fam grp : String) (params : Array α) : Option (Family α) :=
+  if fam == "poly" then
+    let m := natOfScalar (params.getD 0 (nat 0))
+    some ⟨[.scal, .grp (.tn 3), .vecx], .vec, polyEval m (params.extract 1 params.size)⟩
+  else
+    match GDesc.parse grp with
+    | none => none
+    | some d =>
+      let G : LieModel α := GDesc.model d
+      let g (x : DX α) (i : Nat) : Vec α G.rep := memoV (ofArray G.rep (dxGet x i))
+      match fam with
+      | "prod" => some ⟨[.grp d, .grp d], .group d, fun x => toArray (G.composition (g x 0) (g x 1))⟩
+      | "log" => some ⟨[.grp d], .vec, fun x => toArray (G.log (g x 0))⟩
+      | "rminus" => some ⟨[.grp d, .grp d], .vec, fun x => toArray (G.rminus (g x 0) (g x 1))⟩
+      | "sqn" => some ⟨[.grp d, .grp d], .vec,
+          fun x => #[half α * sqNorm (memoV (G.rminus (g x 0) (g x 1)))]⟩
+      | "sumlog" => some ⟨[.vector (.grp d)], .vec, fun x => sumLog G (dxGet x 0)⟩
+      | "act" =>
+        match grp with
+        | "SO3" => some ⟨[.grp .so3, .grp (.tn 3)], .vec,
+            fun x => toArray (SO3.act (memoV (ofArray 4 (dxGet x 0))) (ofArray 3 (dxGet x 1)))⟩
+        | "SE2" => some ⟨[.grp .se2, .grp (.tn 2)], .vec,
+            fun x => toArray (SE2.act (memoV (ofArray 4 (dxGet x 0))) (ofArray 2 (dxGet x 1)))⟩
+        | "SE3" => some ⟨[.grp .se3, .grp (.tn 3)], .vec,
+            fun x => toArray (SE3.act (memoV (ofArray 7 (dxGet x 0))) (ofArray 3 (dxGet x 1)))⟩
+        | _ => none
+      | "chain" => some ⟨[.grp .so3, .grp .so3, .grp (.tn 3)], .vec,
+          fun x => toArray (SO3.act (memoV (SO3.composition (memoV (ofArray 4 (dxGet x 0)))
+            (memoV (ofArray 4 (dxGet x 1))))) (ofArray 3 (dxGet x 2)))⟩
+      | _ => none
+
+/-- split the input words into the argument arrays (re-encoded) and the parameters -/
+def splitArgs (kinds : List MT) (x : Array α) : Option (DX α × Array α) :=
+  let rec go (ks : List MT) (o : Nat) (acc : DX α) : Option (DX α × Nat) :=
+    match ks with
+    | [] => some (acc, o)
+    | t :: r =>
+      match t.decode x o with
+      | some (v, o1) => go r o1 (acc.push (t.encode v))
+      | none => none
+  match go kinds 0 #[] with
+  | some (a, o) => some (a, x.extract o x.size)
+  | none => none
+
+def flatten (x : DX α) : Array α := x.foldl (· ++ ·) #[]
+
+/-- row-major `ny × nx` matrix from the column write log (unwritten entries: NaN) -/
+def jacArray (log : List (Nat × List α)) (ny nx : Nat) : Array α :=
+  let init : Array α := Array.replicate (ny * nx) (nanOf α)
+  log.foldl (fun arr w =>
+    (List.range ny).foldl (fun arr i => arr.setIfInBounds (i * nx + w.1) (w.2.getD i (nanOf α))) arr) init
+
+def hessArray (log : List ((Nat × Nat) × α)) (rows cols : Nat) : Array α :=
+  let init : Array α := Array.replicate (rows * cols) (nanOf α)
+  log.foldl (fun arr w => if w.1.2 < cols then arr.setIfInBounds (w.1.1 * cols + w.1.2) w.2 else arr) init
+
+def parseDigits (s : String) : List Nat := s.toList.map (fun c => c.toNat - '0'.toNat)
+
+@[specialize] def runDiffAt (op : String) (tok : List String) (x : Array α) : Except String (Array α) := do
+  match tok with
+  | [fam, grp, kS, mode, idxS, _cm] =>
+    let K := (kS.drop 1).toNat!
+    -- the family's argument kinds do not depend on the parameters
+    let some F0 := mkFamily (α := α) fam grp #[] | .error "unknown-family"
+    let some (args, params) := splitArgs F0.kinds x | .error "decode-args"
+    let some F := mkFamily fam grp params | .error "unknown-family"
+    let slotsAll := F.kinds.mapIdx (fun i t => mkSlot (α := α) t i)
+    let idxBody := idxS.drop 1
+    let subset := idxBody != "all"
+    let idx := if subset then parseDigits idxBody else List.range F.kinds.length
+    let analytic := K ≥ 1 && !subset && (mode == "ana" || mode == "def")
+    if analytic then .error "analytic-passthrough-not-modelled-here"
+    let c : Callable (DX α) (Array α) Unit Unit := { f := F.f, jacobian := none, hessian := none }
+    let overwrite (z y : DX α) : DX α := idx.foldl (fun acc i => acc.setIfInBounds i (dxGet y i)) z
+    let r ←
+      if subset then
+        drSubset (α := α) K (if mode == "num" then .numerical else .default) c (rmOf F.out) slotsAll
+          (fun y => .ok y) overwrite idx args
+      else
+        dr (α := α) K (if mode == "num" then .numerical else .default) c (rmOf F.out) slotsAll args
+    match r with
+    | .value fv =>
+      if op == "diff_dr" then return fv ++ flatten args else return flatten args
+    | .num1 r1 =>
+      if op == "diff_trace" then return r1.trace.foldl (fun a s => a ++ flatten s) #[]
+      let ny := match F.out with | .group d => (GDesc.model (α := α) d).dof | .vec => r1.fval.size
+      return r1.fval ++ jacArray r1.J ny r1.nx ++ flatten r1.x
+    | .num2 r2 =>
+      if op == "diff_trace" then return r2.trace.foldl (fun a s => a ++ flatten s) #[]
+      let ny := match F.out with | .group d => (GDesc.model (α := α) d).dof | .vec => r2.fval.size
+      return r2.fval ++ jacArray r2.J ny r2.nx ++ hessArray r2.H r2.nx (r2.nx * ny) ++ flatten r2.x
+    | _ => .error "unexpected-analytic"
+  | _ => .error "bad-type-token"
+
+def runDiff (op grp prec : String) (args : Array String) : Option String :=
+  if op != "diff_dr" && op != "diff_trace" then none
+  else if prec == "f64" then
+    match runDiffAt (α := Float) op (grp.splitOn ":") (args.map Bits.ofHex) with
+    | .ok out => some (" ".intercalate (out.toList.map Bits.toHex))
+    | .error e => some ("ERR " ++ e)
+  else if prec == "f32" then
+    match runDiffAt (α := Float32) op (grp.splitOn ":") (args.map Bits.ofHex) with
+    | .ok out => some (" ".intercalate (out.toList.map Bits.toHex))
+    | .error e => some ("ERR " ++ e)
+  else some "ERR bad-prec"
 
 end Drv
